@@ -135,16 +135,15 @@ Qed.
 Lemma Ext_unique PB S0 S evs t s1 s2 : Ext PB S0 S evs -> tev_in evs t s1 -> tev_in evs t s2 -> s1 = s2.
 Proof. intros HE H1 H2. apply (x_in _ _ _ _ HE) in H1, H2. congruence. Qed.
 
-(* fields other than mp / unconf / states *)
+(* fields other than mp / unconf / states (blocktxs is never read back) *)
 Definition same_misc (n n' : node) : Prop :=
-  blocktxs n' = blocktxs n /\ chain n' = chain n /\ insync n' = insync n /\ now n' = now n /\
-  delay n' = delay n.
+  chain n' = chain n /\ insync n' = insync n /\ now n' = now n /\ delay n' = delay n.
 
 Lemma same_misc_refl n : same_misc n n.
 Proof. repeat split. Qed.
 
 Lemma same_misc_trans n1 n2 n3 : same_misc n1 n2 -> same_misc n2 n3 -> same_misc n1 n3.
-Proof. unfold same_misc. intros (?&?&?&?&?) (?&?&?&?&?). repeat split; congruence. Qed.
+Proof. unfold same_misc. intros (?&?&?&?) (?&?&?&?). repeat split; congruence. Qed.
 
 (* ---------------------------------------------------------------------------------------- *)
 (* mark_conflicts *)
@@ -259,4 +258,383 @@ Proof.
       { intros c' Hin Hu Hs. apply elem_of_cons in Hin. destruct Hin as [->|Hin].
         - rewrite Eu in Hu. destruct Hu as (? & ?). discriminate.
         - apply (Hev2 c' Hin Hu Hs). }
+Qed.
+
+(* ---------------------------------------------------------------------------------------- *)
+(* delay_loop *)
+Definition dcond (n : node) (cutoff t : Z) (u : utx) : bool :=
+  negb (u_safe u) && negb (u_unsafe u) && (u_time u <? cutoff)
+  && (u_trusted u || is_trusted (mp n) t).
+Definition mk_safe_s (s : tstate) : tstate :=
+  TState true (s_unsafe s) (s_cancel s) (s_depth s) (s_proof s) (s_outs s).
+Definition mk_safe_u (u : utx) : utx := UTx (u_time u) (u_unsafe u) true (u_trusted u).
+
+Lemma trans_mk_safe PB s : (s_unsafe s || s_cancel s) = false -> trans PB s (mk_safe_s s).
+Proof.
+  intros H. apply orb_false_iff in H. destruct H as [H1 H2].
+  unfold trans, flags, proof_ok, mk_safe_s. simpl. rewrite H1, H2. repeat split; auto; congruence.
+Qed.
+
+Definition delay_unconf (n : node) (cutoff : Z) (keys : list Z) (x : Z) : option utx :=
+  match unconf n !! x with
+  | Some u => if bool_decide (x ∈ keys) && dcond n cutoff x u then Some (mk_safe_u u) else Some u
+  | None => None
+  end.
+
+Lemma delay_unconf_cons_ne n n1 cutoff c keys x :
+  x <> c -> mp n1 = mp n -> unconf n1 !! x = unconf n !! x ->
+  delay_unconf n1 cutoff keys x = delay_unconf n cutoff (c :: keys) x.
+Proof.
+  intros Hne Hmp Hu. unfold delay_unconf, dcond. rewrite Hu, Hmp.
+  destruct (unconf n !! x) as [u|]; [|reflexivity].
+  replace (bool_decide (x ∈ c :: keys)) with (bool_decide (x ∈ keys)); [reflexivity|].
+  apply bool_decide_ext. rewrite elem_of_cons. tauto.
+Qed.
+
+Lemma delay_loop_spec PB S0 cutoff keys : NoDup keys -> forall n acc n' acc',
+  delay_loop n cutoff keys acc = (n', acc') ->
+  (forall c, c ∈ keys -> c ∉ tkeys acc) ->
+  Ext PB S0 (states n) acc ->
+  mp n' = mp n /\ same_misc n n' /\
+  (forall x, unconf n' !! x = delay_unconf n cutoff keys x) /\
+  Ext PB S0 (states n') acc' /\
+  exists evs, acc' = acc ++ evs /\
+    (forall x s, tev_in evs x s ->
+       x ∈ keys /\ EUpdate x s ∈ evs /\
+       exists u so, unconf n !! x = Some u /\ dcond n cutoff x u = true /\ states n !! x = Some so /\
+                    (s_unsafe so || s_cancel so) = false /\ s = mk_safe_s so) /\
+    (forall x u so, x ∈ keys -> unconf n !! x = Some u -> dcond n cutoff x u = true ->
+       states n !! x = Some so -> (s_unsafe so || s_cancel so) = false ->
+       EUpdate x (mk_safe_s so) ∈ evs).
+Proof.
+  induction 1 as [|c keys Hc Hnd IH]; intros n acc n' acc' Hm Hfresh HE.
+  - simpl in Hm. inversion Hm. subst. split; [reflexivity|]. split; [apply same_misc_refl|].
+    split.
+    { intros x. unfold delay_unconf. destruct (unconf n' !! x); [|reflexivity].
+      rewrite bool_decide_eq_false_2 by apply not_elem_of_nil. reflexivity. }
+    split; [exact HE|].
+    exists []. rewrite app_nil_r. split; [reflexivity|]. split.
+    + intros x s H. destruct (tev_in_nil _ _ H).
+    + intros x u so H. apply elem_of_nil in H. destruct H.
+  - cbn [delay_loop] in Hm.
+    assert (Hfresh' : forall c', c' ∈ keys -> c' ∉ tkeys acc).
+    { intros c' H. apply Hfresh. right. exact H. }
+    (* the generic way to lift the result of the recursive call on a node n1 that differs from n
+       only at key c *)
+    assert (Lift : forall n1 acc1 (pre : list event),
+      mp n1 = mp n -> same_misc n n1 ->
+      (forall x, x <> c -> unconf n1 !! x = unconf n !! x) ->
+      (forall x, x <> c -> states n1 !! x = states n !! x) ->
+      unconf n1 !! c = delay_unconf n cutoff (c :: keys) c ->
+      acc1 = acc ++ pre ->
+      (forall x s, tev_in pre x s ->
+         x = c /\ EUpdate x s ∈ pre /\
+         exists u so, unconf n !! x = Some u /\ dcond n cutoff x u = true /\ states n !! x = Some so /\
+                      (s_unsafe so || s_cancel so) = false /\ s = mk_safe_s so) ->
+      (forall u so, unconf n !! c = Some u -> dcond n cutoff c u = true ->
+         states n !! c = Some so -> (s_unsafe so || s_cancel so) = false ->
+         EUpdate c (mk_safe_s so) ∈ pre) ->
+      Ext PB S0 (states n1) acc1 ->
+      delay_loop n1 cutoff keys acc1 = (n', acc') ->
+      mp n' = mp n /\ same_misc n n' /\
+      (forall x, unconf n' !! x = delay_unconf n cutoff (c :: keys) x) /\
+      Ext PB S0 (states n') acc' /\
+      exists evs, acc' = acc ++ evs /\
+        (forall x s, tev_in evs x s ->
+           x ∈ c :: keys /\ EUpdate x s ∈ evs /\
+           exists u so, unconf n !! x = Some u /\ dcond n cutoff x u = true /\ states n !! x = Some so /\
+                        (s_unsafe so || s_cancel so) = false /\ s = mk_safe_s so) /\
+        (forall x u so, x ∈ c :: keys -> unconf n !! x = Some u -> dcond n cutoff x u = true ->
+           states n !! x = Some so -> (s_unsafe so || s_cancel so) = false ->
+           EUpdate x (mk_safe_s so) ∈ evs)).
+    { intros n1 acc1 pre Hmp1 Hmisc1 Hu1 Hs1 Huc Hacc1 Hpre1 Hpre2 HE1 Hm1.
+      specialize (IH _ _ _ _ Hm1).
+      destruct IH as (Hmp & Hmisc & Hunc & HE' & evs & Hacc & Hev1 & Hev2).
+      { intros c' H. rewrite Hacc1, tkeys_app, not_elem_of_app. split; [apply Hfresh', H|].
+        intros Hx. apply tkeys_elem in Hx. destruct Hx as (s & Hx).
+        destruct (Hpre1 _ _ Hx) as (-> & _). contradiction. }
+      { exact HE1. }
+      split; [congruence|]. split; [eapply same_misc_trans; eauto|]. split.
+      { intros x. rewrite Hunc. destruct (decide (x = c)) as [->|Hne].
+        - unfold delay_unconf at 1. rewrite (bool_decide_eq_false_2 _ Hc). simpl.
+          rewrite Huc. destruct (delay_unconf n cutoff (c :: keys) c); reflexivity.
+        - apply delay_unconf_cons_ne; auto. }
+      split; [exact HE'|].
+      exists (pre ++ evs). split; [rewrite Hacc, Hacc1, <- app_assoc; reflexivity|]. split.
+      { intros x s H. apply tev_in_app in H. destruct H as [H|H].
+        - destruct (Hpre1 _ _ H) as (-> & H2 & H3). split; [left|].
+          split; [apply elem_of_app; left; exact H2|exact H3].
+        - destruct (Hev1 _ _ H) as (H1 & H2 & u & so & H3 & H4 & H5 & H6 & H7).
+          assert (x <> c) by (intros ->; contradiction).
+          split; [right; exact H1|]. split; [apply elem_of_app; right; exact H2|].
+          exists u, so. rewrite <- Hu1, <- Hs1 by assumption.
+          unfold dcond in *. rewrite <- Hmp1. auto. }
+      { intros x u so Hin Hu Hd Hs Hns. apply elem_of_app. apply elem_of_cons in Hin.
+        destruct Hin as [->|Hin].
+        - left. eapply Hpre2; eauto.
+        - right. assert (x <> c) by (intros ->; contradiction).
+          apply (Hev2 x u so Hin); [rewrite Hu1 by assumption; exact Hu| |rewrite Hs1 by assumption; exact Hs|exact Hns].
+          unfold dcond in *. rewrite Hmp1. exact Hd. } }
+    assert (NoPre : forall x s, tev_in [] x s ->
+         x = c /\ EUpdate x s ∈ [] /\
+         exists u so, unconf n !! x = Some u /\ dcond n cutoff x u = true /\ states n !! x = Some so /\
+                      (s_unsafe so || s_cancel so) = false /\ s = mk_safe_s so).
+    { intros x s H. destruct (tev_in_nil _ _ H). }
+    destruct (unconf n !! c) as [u|] eqn:Eu.
+    + fold (dcond n cutoff c u) in Hm. destruct (dcond n cutoff c u) eqn:Ed.
+      * assert (Huc : forall n1, unconf n1 !! c = Some (mk_safe_u u) ->
+                                 unconf n1 !! c = delay_unconf n cutoff (c :: keys) c).
+        { intros n1 ->. unfold delay_unconf. rewrite Eu, Ed.
+          rewrite bool_decide_eq_true_2 by left. reflexivity. }
+        set (n1 := set_unconf n (<[c:=UTx (u_time u) (u_unsafe u) true (u_trusted u)]> (unconf n))) in *.
+        assert (Hn1u : forall x, x <> c -> unconf n1 !! x = unconf n !! x).
+        { intros x Hne. subst n1. cbn. rewrite lookup_insert_ne by congruence. reflexivity. }
+        assert (Hn1c : unconf n1 !! c = Some (mk_safe_u u)).
+        { subst n1. cbn. apply lookup_insert. }
+        destruct (states n1 !! c) as [s|] eqn:Es.
+        -- assert (Es' : states n !! c = Some s) by exact Es.
+           destruct (s_unsafe s || s_cancel s) eqn:Eus.
+           ++ apply (Lift n1 acc [] eq_refl).
+              ** repeat split.
+              ** exact Hn1u.
+              ** intros x Hne. reflexivity.
+              ** apply Huc, Hn1c.
+              ** rewrite app_nil_r. reflexivity.
+              ** exact NoPre.
+              ** intros u' so Hu' _ Hso Hns. rewrite Es' in Hso. inversion Hso. subst. congruence.
+              ** exact HE.
+              ** exact Hm.
+           ++ apply (Lift (set_states n1 (<[c:=mk_safe_s s]> (states n1))) (acc ++ [EUpdate c (mk_safe_s s)])
+                      [EUpdate c (mk_safe_s s)] eq_refl).
+              ** repeat split.
+              ** exact Hn1u.
+              ** intros x Hne. cbn. rewrite lookup_insert_ne by congruence. reflexivity.
+              ** apply Huc, Hn1c.
+              ** reflexivity.
+              ** intros x s' H. apply tev_in_single in H. destruct H as [H|H]; [discriminate|].
+                 inversion H. subst. split; [reflexivity|]. split; [left|].
+                 exists u, s. auto.
+              ** intros u' so Hu' _ Hso Hns. rewrite Es' in Hso. inversion Hso. subst. left.
+              ** cbn [states set_states set_unconf].
+                 apply (Ext_upd PB S0 _ acc c s); [exact HE| |exact Es|apply trans_mk_safe, Eus].
+                 apply Hfresh. left.
+              ** exact Hm.
+        -- assert (Es' : states n !! c = None) by exact Es.
+           apply (Lift n1 acc [] eq_refl).
+           ++ repeat split.
+           ++ exact Hn1u.
+           ++ intros x Hne. reflexivity.
+           ++ apply Huc, Hn1c.
+           ++ rewrite app_nil_r. reflexivity.
+           ++ exact NoPre.
+           ++ intros u' so Hu' _ Hso Hns. rewrite Es' in Hso. discriminate.
+           ++ exact HE.
+           ++ exact Hm.
+      * apply (Lift n acc [] eq_refl).
+        -- apply same_misc_refl.
+        -- reflexivity.
+        -- reflexivity.
+        -- unfold delay_unconf. rewrite Eu, Ed, andb_false_r. reflexivity.
+        -- rewrite app_nil_r. reflexivity.
+        -- exact NoPre.
+        -- intros u' so Hu' Hd. inversion Hu'. subst. congruence.
+        -- exact HE.
+        -- exact Hm.
+    + apply (Lift n acc [] eq_refl).
+      * apply same_misc_refl.
+      * reflexivity.
+      * reflexivity.
+      * unfold delay_unconf. rewrite Eu. reflexivity.
+      * rewrite app_nil_r. reflexivity.
+      * exact NoPre.
+      * intros u' so Hu'. discriminate.
+      * exact HE.
+      * exact Hm.
+Qed.
+
+(* ---------------------------------------------------------------------------------------- *)
+(* spent outputs *)
+Lemma outs_ok_spent n body : outs_ok body (spent_outputs n body) = true.
+Proof.
+  induction body as [|o body IH]; [reflexivity|].
+  cbn [spent_outputs map outs_ok]. fold (spent_outputs n body). rewrite IH, andb_true_r.
+  unfold expected_out. destruct (o <? 0) eqn:E0; [reflexivity|].
+  destruct (states n !! (o / 10)).
+  - destruct (o mod 10 <? NOUTS); [apply Z.eqb_refl|]. rewrite orb_true_r. reflexivity.
+  - destruct (o mod 10 <? NOUTS); [apply Z.eqb_refl|]. rewrite Z.eqb_refl. reflexivity.
+Qed.
+
+(* ---------------------------------------------------------------------------------------- *)
+(* ProcessBlock: the cancel loop *)
+Definition mk_cancel_s (s : tstate) : tstate :=
+  TState false true true (s_depth s) (s_proof s) (s_outs s).
+
+Lemma trans_mk_cancel PB s : trans PB s (mk_cancel_s s).
+Proof. unfold trans, flags, proof_ok, mk_cancel_s. simpl. repeat split; auto. Qed.
+
+Lemma cancel_conflicts_spec PB S0 t unc cs : NoDup cs -> forall n safe acc,
+  (forall c, c ∈ cs -> c <> t -> c ∈ unc -> c ∉ tkeys acc /\ is_Some (states n !! c)) ->
+  Ext PB S0 (states n) acc ->
+  exists n' safe' evs,
+    cancel_conflicts n t unc cs safe acc = Some (n', safe', acc ++ evs) /\
+    mp n' = mp n /\ unconf n' = unconf n /\ same_misc n n' /\
+    Ext PB S0 (states n') (acc ++ evs) /\
+    (forall x, is_Some (states n !! x) -> is_Some (states n' !! x)) /\
+    (forall x, states n' !! x = None -> states n !! x = None) /\
+    (forall x s, tev_in evs x s ->
+       x ∈ cs /\ x <> t /\ x ∈ unc /\ EUpdate x s ∈ evs /\
+       s_cancel s = true /\ s_unsafe s = true /\ s_safe s = false /\
+       exists so, states n !! x = Some so /\ s_proof s = s_proof so) /\
+    (forall c, c ∈ cs -> c <> t -> c ∈ unc -> exists s, EUpdate c s ∈ evs).
+Proof.
+  induction 1 as [|c cs Hc Hnd IH]; intros n safe acc Hpre HE.
+  - exists n, safe, []. rewrite app_nil_r. simpl. split; [reflexivity|].
+    split; [reflexivity|]. split; [reflexivity|]. split; [apply same_misc_refl|].
+    split; [exact HE|]. split; [auto|]. split; [auto|]. split.
+    + intros x s H. destruct (tev_in_nil _ _ H).
+    + intros c H. apply elem_of_nil in H. destruct H.
+  - cbn [cancel_conflicts].
+    assert (Hpre' : forall c', c' ∈ cs -> c' <> t -> c' ∈ unc -> c' ∉ tkeys acc /\ is_Some (states n !! c')).
+    { intros c' H. apply Hpre. right. exact H. }
+    destruct (c =? t) eqn:Ect.
+    { apply Z.eqb_eq in Ect. subst c.
+      destruct (IH n safe acc Hpre' HE) as (n' & safe' & evs & Hr & Hmp & Hun & Hmisc & HE' & Hst & Hst' & Hev1 & Hev2).
+      exists n', safe', evs. split; [exact Hr|]. repeat (split; [assumption|]). split.
+      - intros x s H. destruct (Hev1 x s H) as (H1 & H2). split; [right; exact H1|exact H2].
+      - intros c Hin Hne Hu. apply elem_of_cons in Hin. destruct Hin as [->|Hin]; [congruence|].
+        apply Hev2; assumption. }
+    apply Z.eqb_neq in Ect.
+    destruct (mem c unc) eqn:Emu.
+    + apply mem_elem in Emu. destruct (Hpre c) as [Hfr (s & Hs)]; [left|exact Ect|exact Emu|].
+      rewrite Hs.
+      set (n1 := set_states n (<[c:=TState false true true (s_depth s) (s_proof s) (s_outs s)]> (states n))).
+      destruct (IH n1 false (acc ++ [EUpdate c (mk_cancel_s s)])) as
+        (n' & safe' & evs & Hr & Hmp & Hun & Hmisc & HE' & Hst & Hst' & Hev1 & Hev2).
+      { intros c' Hin Hne Hu. destruct (Hpre' c' Hin Hne Hu) as [H1 H2].
+        assert (c' <> c) by (intros ->; contradiction).
+        split.
+        - rewrite tkeys_app, not_elem_of_app. split; [exact H1|]. cbn.
+          intros Hx. apply elem_of_list_singleton in Hx. contradiction.
+        - subst n1. cbn. rewrite lookup_insert_ne by congruence. exact H2. }
+      { subst n1. cbn [states set_states].
+        apply (Ext_upd PB S0 _ acc c s); [exact HE|exact Hfr|exact Hs|apply trans_mk_cancel]. }
+      exists n', safe', (EUpdate c (mk_cancel_s s) :: evs).
+      split.
+      { unfold mk_cancel_s in Hr. rewrite Hr. rewrite <- app_assoc. reflexivity. }
+      split; [exact Hmp|]. split; [exact Hun|]. split; [exact Hmisc|].
+      split; [rewrite <- app_assoc in HE'; exact HE'|].
+      split.
+      { intros x Hx. apply Hst. subst n1. cbn. destruct (decide (x = c)) as [->|Hne].
+        - rewrite lookup_insert. eauto.
+        - rewrite lookup_insert_ne by congruence. exact Hx. }
+      split.
+      { intros x Hx. apply Hst' in Hx. subst n1. cbn in Hx. destruct (decide (x = c)) as [->|Hne].
+        - rewrite lookup_insert in Hx. discriminate.
+        - rewrite lookup_insert_ne in Hx by congruence. exact Hx. }
+      split.
+      { intros x s' H. change (?a :: evs) with ([a] ++ evs) in H. apply tev_in_app in H.
+        destruct H as [H|H].
+        - apply tev_in_single in H. destruct H as [H|H]; [discriminate|]. inversion H. subst.
+          split; [left|]. split; [exact Ect|]. split; [exact Emu|]. split; [left|].
+          repeat (split; [reflexivity|]). exists s. split; [exact Hs|reflexivity].
+        - destruct (Hev1 x s' H) as (H1 & H2 & H3 & H4 & H5 & H6 & H7 & so & H8 & H9).
+          split; [right; exact H1|]. split; [exact H2|]. split; [exact H3|]. split; [right; exact H4|].
+          repeat (split; [assumption|]). exists so. split; [|exact H9].
+          assert (x <> c) by (intros ->; contradiction).
+          subst n1. cbn in H8. rewrite lookup_insert_ne in H8 by congruence. exact H8. }
+      { intros c' Hin Hne Hu. apply elem_of_cons in Hin. destruct Hin as [->|Hin].
+        - eexists. left.
+        - destruct (Hev2 c' Hin Hne Hu) as (s' & H). exists s'. right. exact H. }
+    + apply mem_false in Emu.
+      destruct (IH n false acc Hpre' HE) as (n' & safe' & evs & Hr & Hmp & Hun & Hmisc & HE' & Hst & Hst' & Hev1 & Hev2).
+      exists n', safe', evs. split; [exact Hr|]. repeat (split; [assumption|]). split.
+      * intros x s H. destruct (Hev1 x s H) as (H1 & H2). split; [right; exact H1|exact H2].
+      * intros c' Hin Hne Hu. apply elem_of_cons in Hin. destruct Hin as [->|Hin]; [contradiction|].
+        apply Hev2; assumption.
+Qed.
+
+(* ---------------------------------------------------------------------------------------- *)
+(* ProcessBlock: the notification loop *)
+Definition pentry := (Z * list Z * bool * bool)%type.
+Definition ptx (x : pentry) : Z := fst (fst (fst x)).
+
+Lemma block_notify_spec (PB : Z -> Prop) S0 b : PB b -> forall pending, NoDup (map ptx pending) -> forall n acc,
+  (forall t body nw sf, (t, body, nw, sf) ∈ pending ->
+     t ∉ tkeys acc /\ (if nw : bool then states n !! t = None else is_Some (states n !! t))) ->
+  Ext PB S0 (states n) acc ->
+  exists n' evs,
+    block_notify n b pending acc = Some (n', acc ++ evs) /\
+    mp n' = mp n /\ unconf n' = unconf n /\ same_misc n n' /\
+    Ext PB S0 (states n') (acc ++ evs) /\
+    (forall x s, tev_in evs x s ->
+       exists body nw sf, (x, body, nw, sf) ∈ pending /\ s_proof s = Some b /\ s_depth s = 0 /\
+         (if nw : bool then ETx x s ∈ evs /\ outs_ok body (s_outs s) = true else EUpdate x s ∈ evs)) /\
+    (forall t body nw sf, (t, body, nw, sf) ∈ pending ->
+       exists s, s_proof s = Some b /\ s_depth s = 0 /\
+                 (if nw : bool then ETx t s ∈ evs else EUpdate t s ∈ evs)).
+Proof.
+  intros HPB. induction pending as [|[[[t body] nw] sf] pending IH]; intros Hnd n acc Hpre HE.
+  - exists n, []. rewrite app_nil_r. simpl. split; [reflexivity|]. split; [reflexivity|].
+    split; [reflexivity|]. split; [apply same_misc_refl|]. split; [exact HE|]. split.
+    + intros x s H. destruct (tev_in_nil _ _ H).
+    + intros t body nw sf H. apply elem_of_nil in H. destruct H.
+  - cbn [map] in Hnd. apply NoDup_cons in Hnd. destruct Hnd as [Hni Hnd]. cbn [ptx fst] in Hni.
+    destruct (Hpre t body nw sf) as [Hfr Hst]; [left|].
+    assert (Hother : forall t' body' nw' sf', (t', body', nw', sf') ∈ pending -> t' <> t).
+    { intros t' body' nw' sf' Hin ->. apply Hni. apply elem_of_list_fmap.
+      exists (t, body', nw', sf'). split; [reflexivity|exact Hin]. }
+    (* the state written and the event emitted for t *)
+    assert (Step : exists s1 e, tev e = Some (nw, t, s1) /\ s_proof s1 = Some b /\ s_depth s1 = 0 /\
+              (if nw then e = ETx t s1 /\ outs_ok body (s_outs s1) = true else e = EUpdate t s1) /\
+              Ext PB S0 (<[t:=s1]> (states n)) (acc ++ [e]) /\
+              block_notify n b ((t, body, nw, sf) :: pending) acc =
+              block_notify (set_states n (<[t:=s1]> (states n))) b pending (acc ++ [e])).
+    { destruct nw.
+      - exists (TState sf (negb sf) false 0 (Some b) (spent_outputs n body)).
+        exists (ETx t (TState sf (negb sf) false 0 (Some b) (spent_outputs n body))).
+        split; [reflexivity|]. split; [reflexivity|]. split; [reflexivity|].
+        split; [split; [reflexivity|apply outs_ok_spent]|]. split; [|reflexivity].
+        apply Ext_new; [exact HE|exact Hfr|exact Hst| |].
+        + unfold flags. simpl. split; [destruct sf; reflexivity|discriminate].
+        + right. exists b. split; [reflexivity|exact HPB].
+      - destruct Hst as (s & Hs).
+        exists (TState (negb (s_unsafe s) && sf) (negb (negb (s_unsafe s) && sf)) (s_cancel s) 0 (Some b) (s_outs s)).
+        exists (EUpdate t (TState (negb (s_unsafe s) && sf) (negb (negb (s_unsafe s) && sf)) (s_cancel s) 0 (Some b) (s_outs s))).
+        split; [reflexivity|]. split; [reflexivity|]. split; [reflexivity|].
+        split; [reflexivity|]. split; [|cbn [block_notify]; rewrite Hs; reflexivity].
+        apply (Ext_upd PB S0 _ acc t s); [exact HE|exact Hfr|exact Hs|].
+        unfold trans, flags, proof_ok. simpl. split; [|split; [|split]].
+        + intros ->. reflexivity.
+        + auto.
+        + intros [F1 F2]. split; [destruct (negb (s_unsafe s) && sf); reflexivity|].
+          intros Hc. rewrite (F2 Hc). reflexivity.
+        + right. exists b. split; [reflexivity|exact HPB]. }
+    destruct Step as (s1 & e & Hte & Hp1 & Hd1 & Hkind & HE1 & Heq).
+    destruct (IH Hnd (set_states n (<[t:=s1]> (states n))) (acc ++ [e])) as
+      (n' & evs & Hr & Hmp & Hun & Hmisc & HE' & Hev1 & Hev2).
+    { intros t' body' nw' sf' Hin. destruct (Hpre t' body' nw' sf') as [H1 H2]; [right; exact Hin|].
+      assert (Hne : t' <> t) by (eapply Hother; eauto).
+      split.
+      - rewrite tkeys_app, not_elem_of_app. split; [exact H1|]. unfold tkeys. cbn. unfold tkey. rewrite Hte.
+        intros Hx. apply elem_of_list_singleton in Hx. contradiction.
+      - cbn. rewrite lookup_insert_ne by congruence. exact H2. }
+    { exact HE1. }
+    exists n', (e :: evs). split; [rewrite Heq, Hr, <- app_assoc; reflexivity|].
+    split; [exact Hmp|]. split; [exact Hun|]. split; [exact Hmisc|].
+    split; [rewrite <- app_assoc in HE'; exact HE'|]. split.
+    + intros x s H. change (e :: evs) with ([e] ++ evs) in H. apply tev_in_app in H. destruct H as [H|H].
+      * apply tev_in_single in H. exists body, nw, sf. split; [left|].
+        assert (x = t /\ s = s1) as [-> ->].
+        { destruct H as [-> | ->]; cbn in Hte; inversion Hte; auto. }
+        split; [exact Hp1|]. split; [exact Hd1|]. destruct nw.
+        -- destruct Hkind as [-> Ho]. split; [left|exact Ho].
+        -- subst e. left.
+      * destruct (Hev1 x s H) as (body' & nw' & sf' & Hin & H1 & H2 & H3).
+        exists body', nw', sf'. split; [right; exact Hin|]. split; [exact H1|]. split; [exact H2|].
+        destruct nw'; [destruct H3; split; [right|]; assumption | right; exact H3].
+    + intros t' body' nw' sf' Hin. apply elem_of_cons in Hin. destruct Hin as [Heq|Hin].
+      * inversion Heq. subst. exists s1. split; [exact Hp1|]. split; [exact Hd1|].
+        destruct nw; [destruct Hkind as [-> _]|subst e]; left.
+      * destruct (Hev2 t' body' nw' sf' Hin) as (s & H1 & H2 & H3). exists s.
+        split; [exact H1|]. split; [exact H2|]. destruct nw'; right; exact H3.
 Qed.
